@@ -21,7 +21,7 @@ theorem fin_mag : entryMagOK Tables.fin = true := by decide +kernel
 theorem ofLimbs_ok {l : List Nat} (h : entryMagOK l = true) : (XY.ofLimbs l).ok := by
   unfold entryMagOK at h
   simp only [Bool.and_eq_true, decide_eq_true_eq] at h
-  exact ⟨h.1.2, h.2⟩
+  exact ⟨mag_mono h.1.2 (by decide), mag_mono h.2 (by decide)⟩
 
 theorem ofLimbs_toPoint (l : List Nat) : (XY.ofLimbs l).toPoint = ptOfLimbs l := by
   unfold XY.toPoint XY.ofLimbs ptOfLimbs ptF
